@@ -187,6 +187,13 @@ fn resolve_mates(records: &mut [Record]) -> io::Result<()> {
         .map(|(i, record)| record.mate_distance.map(|len| i + len + 1))
         .collect();
 
+    if mate_indices.iter().flatten().any(|&i| i >= records.len()) {
+        return Err(io::Error::new(
+            io::ErrorKind::InvalidData,
+            "invalid mate distance",
+        ));
+    }
+
     for i in 0..records.len() {
         let record = &mut records[i];
 
